@@ -469,10 +469,14 @@ func (u *Universe) genMsgCapped(r *rng, ti *TypeInfo, g genOpts) *Val {
 		}
 	}
 	// one value in twelve of a type that can nest (recursive types, chains of message types) is deep and narrow: nesting depth
-	// 9 to 24 with at most 60 messages in all (a decoder or encoder that treats the first few levels specially must still be right)
+	// 9 to 24 - one in three of them 30 to 74 - with at most 60 (150) messages in all (a decoder or encoder that treats the
+	// first few, or the first few dozen, levels specially must still be right)
 	if u.nests(ti) && r.intn(12) == 0 {
-		budget := 60
-		return u.genMsg(r, ti, 'm', genOpts{depth: 9 + r.intn(16), unknownOK: g.unknownOK, narrow: true, budget: &budget})
+		budget, depth := 60, 9+r.intn(16)
+		if r.intn(3) == 0 {
+			budget, depth = 150, 30+r.intn(45)
+		}
+		return u.genMsg(r, ti, 'm', genOpts{depth: depth, unknownOK: g.unknownOK, narrow: true, budget: &budget})
 	}
 	for {
 		v := u.genMsg(r, ti, 'm', g)
